@@ -43,4 +43,12 @@ derive("MC_C19_quick.cfg", "MC_C19_thorough.cfg", {"Rs": "{1, 2, 3, 4}", "Offs":
 derive("MC_C20_quick.cfg", "MC_C20_thorough.cfg", {"Rs": "{1, 2, 3}", "Offs": "{0, 1, 2, 3}"})
 derive("MC_NN_quick.cfg", "MC_NN_thorough.cfg", {"Dims": "{11, 12, 21, 22, 13, 31}", "Dus": "{1, 2, 3}", "Offs": "{0, 1, 2}"})
 derive("MC_NNq_quick.cfg", "MC_NNq_thorough.cfg", {"Dims": "{11, 12, 21, 22}", "Dus": "{1, 2, 3}", "Offs": "{0, 1, 2}"})
+# "XL" instances: larger shapes than any menu-sized instance (D = 4, R up to 5, joint dimension up to 8)
+derive("MC_C01_quick.cfg", "MC_C01_xl.cfg", {"Ds": "{4}", "R1s": "{2}", "R2s": "{5}", "Offs": "{0}"})
+for c in ("C07", "C08", "C09"):
+    derive(f"MC_{c}_quick.cfg", f"MC_{c}_xl.cfg", {"Dims": "{34, 43, 44}", "RPairs": "{14, 51}", "Offs": "{0}", "Modes": '{"S"}',
+                                                  "CondKinds": '{"Cond", "CondId"}'})
+derive("MC_C10_quick.cfg", "MC_C10_xl.cfg", {"Dims": "{34, 43, 44}", "RPairs": "{11, 51}", "Offs": "{0}", "Modes": '{"S"}', "CondKinds": '{"Cond", "CondId"}'})
+derive("MC_C06_quick.cfg", "MC_C06_xl.cfg", {"Ds": "{4}", "Rs": "{5}", "Offs": "{0}", "PdfKinds": '{"PDF:S"}'})
+derive("MC_C13a_quick.cfg", "MC_C13a_xl.cfg", {"Ds": "{4}", "Rs": "{1, 5}", "Offs": "{0}"})
 print("ok")
